@@ -12,6 +12,10 @@ SIZES = {"quick": 50, "thorough": 1000}
 
 def gen(tier, rng, shard, nshards):
     for i in range(SIZES[tier]):
+        if rng.random() < 0.05:
+            yield {"kernel": S.pick(rng, ["nilpotent", "singular-diagonal", "zero-operator"]), "n": int(S.pick(rng, [1, 2, 3, 5, 8])), "dt": S.pick(rng, ["f8", "c16"]),
+                   "m": S.pick(rng, ["1", "n", "n+3"]), "tol": float(S.pick(rng, [0.0, 1e-12, 1e-8, 1e-5])), "fn": S.pick(rng, ["arnoldi", "Arnoldi()"]), "seed": S.seed(rng)}
+            continue
         n = int(S.pick(rng, [1, 2, 3, 4, 6, 8, 12, 20, 30, 40] + ([80, 120, 200] if tier == "thorough" else [])))
         yield {"n": n, "dt": S.pick(rng, ["f8", "f8", "c16"]), "normal": bool(rng.random() < 0.4), "seed": S.seed(rng), "cols": 0,
                "rhs": S.pick(rng, ["generic", "generic", "eigvec", "few-eigvecs"]), "x0": "none",
@@ -91,7 +95,50 @@ def judge_one(ctx, case, M, v, Q, H, m_req, degree, preds):
         ctx.check("padding-is-zero", bool(extra == 0), site="arnoldi", preds=preds, detail={"max_abs": float(extra), "m": m_req, "n": n})
 
 
+def run_kernel(ctx, case):
+    """Start vectors with A v = 0 *identically* (nilpotent / singular diagonal / zero operators): the breakdown happens at the
+    first step with an exactly zero new direction; nothing may become NaN, the basis is v/||v|| padded with zeros, H is zero."""
+    from cola.linalg import Arnoldi
+    from cola.linalg.decompositions.arnoldi import arnoldi
+    n, kind = case["n"], case["kernel"]
+    dtype = np.complex128 if case["dt"] == "c16" else np.float64
+    rng = P.rng_for("c15k", case["seed"])
+    if kind == "nilpotent":
+        M = np.triu(rng.integers(1, 4, size=(n, n)).astype(float), 1)
+        v = np.zeros(n)
+        v[0] = 2.0
+    elif kind == "singular-diagonal":
+        d = np.arange(n, dtype=float)
+        M = np.diag(d)
+        v = np.zeros(n)
+        v[0] = -3.0
+    else:
+        M = np.zeros((n, n))
+        v = rng.integers(1, 5, size=n).astype(float)
+    M, v = M.astype(dtype), v.astype(dtype)
+    m = {"1": 1, "n": n, "n+3": n + 3}[case["m"]]
+    ctx.begin_case(case, sig=f"kernel|{kind}|{n}|{case['dt']}|{case['m']}|{case['tol']}|{case['fn']}", nontrivial=True)
+    preds = {"kernel": kind, "complex": case["dt"] == "c16", "fn": case["fn"]}
+    A = cola.ops.Dense(M)
+    out = ctx.call(Arnoldi(start_vector=v, max_iters=m, tol=case["tol"]), A) if case["fn"] == "Arnoldi()" else \
+        ctx.call(arnoldi, A, v, m, case["tol"])
+    if is_err(out):
+        ctx.check("returns", False, site="arnoldi", preds=preds, detail={"error": repr(out)})
+        return
+    ctx.check("returns", True)
+    Q, H = np.asarray(out[0].to_dense()), np.asarray(out[1].to_dense())
+    ok = bool(np.all(np.isfinite(Q)) and np.all(np.isfinite(H)))
+    ctx.check("finite", ok, site="arnoldi", preds=preds, detail={"m": m})
+    if not ok:
+        return
+    ctx.check("first-column", bool(np.linalg.norm(Q[:, 0] - v / np.linalg.norm(v)) <= 1e-13), site="arnoldi", preds=preds, detail=None)
+    rest = max(np.abs(Q[:, 1:]).max(initial=0.0), np.abs(H).max(initial=0.0))
+    ctx.check("zero-after-the-steps-run", bool(rest == 0), site="arnoldi", preds=preds, detail={"max_abs": float(rest)})
+
+
 def run_case(ctx, case):
+    if case.get("kernel"):
+        return run_kernel(ctx, case)
     from cola.backends import np_fns
     from cola.linalg import Arnoldi
     from cola.linalg.decompositions.arnoldi import arnoldi, arnoldi_eigs
